@@ -779,7 +779,13 @@ impl CodegenContext {
                                     None => self.current_scope_nx,
                                 };
 
-                                for (child_id, child_nx) in self.symbols.children(import_nx) {
+                                // In name order, so that the first clash that gets reported does not depend on hash order
+                                for (child_id, child_nx) in self
+                                    .symbols
+                                    .children(import_nx)
+                                    .into_iter()
+                                    .sorted_by(|a, b| a.0.cmp(&b.0))
+                                {
                                     // Do not import special identifiers
                                     if child_id.is_special() {
                                         continue;
